@@ -64,6 +64,8 @@ def run(repo, rep, tier):
     no_memoised_repository_reads(repo, rep)
     adapters_forward_every_filter(repo, rep)
     results_are_stamped_on_copies(repo, rep)
+    from .c11 import write_loops_are_duplicate_free
+    write_loops_are_duplicate_free(repo, rep, 'C13.R11')
     adapter_keys_agree(repo, rep, 'C13.R10', lambda op: 'Associator' in op or 'Reference' in op, 30)
     mp = repo.cls(MAIN, 'MainProvider')
 
@@ -935,3 +937,38 @@ def adapter_keys_agree(repo, rep, rid, select, floor):
     if n_kw < floor:
         raise AnalysisError('%s: only %d adapter keywords read a request '
                             'parameter' % (rid, n_kw))
+
+
+def no_memoised_parsers(repo, rep, rid, relpath):
+    """A function of the object model that builds a CIM object is not
+    memoised: CIM objects are mutable (host, namespace, keybindings can be
+    assigned), so a cache hands the same object to every caller that passes
+    the same text - a caller that adjusts its result changes what the next
+    caller gets for the same URI."""
+    r = rep.rule(rid, 'functions of %s are not memoised' % relpath)
+    CACHES = ('lru_cache', 'cache', 'cached_property', 'memoize', 'memoized')
+    m = repo.module(relpath)
+    n = 0
+    for f in m.all_funcs():
+        n += 1
+        for d in f.node.decorator_list:
+            fn = d.func if isinstance(d, ast.Call) else d
+            name = (dotted(fn) or '').split('.')[-1]
+            if name in CACHES:
+                r.sites += 1
+                r.ob(False, f.qualname)
+                rep.finding(r, f.qualname, '@' + norm(d, 50), 'memoised',
+                            relpath, f.node.lineno,
+                            '%s is memoised with %s: every call with equal '
+                            'arguments returns the same (mutable) object, so '
+                            'changing one result changes the others'
+                            % (f.qualname, name))
+    r.sites += 1
+    r.ob(n > 100, 'functions-scanned', {'functions': n})
+    if n < 100:
+        raise AnalysisError('%s: only %d functions scanned' % (rid, n))
+    probe = ast.parse('@functools.lru_cache(maxsize=256)\ndef f(a):\n'
+                      '    pass')
+    d = probe.body[0].decorator_list[0]
+    if (dotted(d.func) or '').split('.')[-1] not in CACHES:
+        raise AnalysisError(rid + ' recogniser broken')
